@@ -87,7 +87,7 @@ SPECS["GenC20Calib"] = {
     "header": CALIB_HEADER,
     # the heap program is generic in the parameter class (instantiated per class in Proofs/C20_Calib.v)
     "section": [("Rec", "Type"), ("Field", "Type"), ("set", "Rec -> Field -> Q -> Rec * bool"), ("initialisation", "Rec -> outcome Rec"),
-                ("price", "Rec -> Q"), ("dflt", "Rec")],
+                ("price", "Rec -> Q"), ("dflt", "Rec"), ("model_ok", "Rec -> bool")],
     "funcs": [
         # default_calibration = {ModelType.X: DefaultCalibrationConfiguration(field, (lo, hi))}: dc_<cls>_field / _lo / _hi
         {"emitter": "py2coq_c20:default_table", "py": "default_calibration",
